@@ -56,6 +56,30 @@ Qed.
 Lemma chains_upto_count : length (chains_upto 3) = 4369%nat.
 Proof. vm_compute. reflexivity. Qed.
 
+(** the same over the alphabet with asynchronous Joins (join codes 4: Join in progress while the
+    chain goes on, 5: Join started after the answer), chains of length <= 2 *)
+Definition all_jv_async : list (N * N) :=
+  flat_map (fun j => map (fun v => (j, v)) [0; 1; 2; 3]%N) [0; 1; 2; 3; 4; 5]%N.
+
+Fixpoint all_chains_async (k : nat) : list (list (N * N)) :=
+  match k with
+  | O => [[]]
+  | S k' => flat_map (fun c => map (fun jv => jv :: c) all_jv_async) (all_chains_async k')
+  end.
+
+Definition chains_async_upto (k : nat) : list (list (N * N)) := flat_map all_chains_async (seq 0 (S k)).
+
+Lemma model_async_satisfies_oracle_small_b :
+  forallb (fun c => oracle (obs_of c) && agree (obs_of c)) (chains_async_upto 2) = true.
+Proof. vm_compute. reflexivity. Qed.
+
+Lemma model_async_satisfies_oracle_small : forall chain,
+  In chain (chains_async_upto 2) -> oracle (obs_of chain) = true /\ agree (obs_of chain) = true.
+Proof.
+  intros chain H. pose proof model_async_satisfies_oracle_small_b as B.
+  rewrite forallb_forall in B. apply B in H. now apply andb_true_iff in H.
+Qed.
+
 (** ** Event path *)
 
 (** the observation the event rig would record if the code behaved exactly like the model *)
